@@ -654,7 +654,69 @@ def r1110(facts, res):
         res.ok(R, 'start-state-kind', loc_of(b), 'exclusive exactly when the EXCLUSIVE pattern matched, inclusive exactly when the INCLUSIVE one did (%d call paths)' % len(rows))
 
 
+def r1111(facts, res):
+    """The offset of a piece of the source (a name cut out by splitting a line) is where the piece IS, not where its text is
+    first found: `haystack.find(piece)` answers the first occurrence of the same characters, which for a name that also occurs
+    earlier on the line (`%s s`) lies in front of it.  No offset obtained by searching for a non-constant needle reaches a span."""
+    R = 'R11.11'
+    n = 0
+    bad = []
+    for b in facts.lib_bodies(['lrlex']):
+        if not b.path.startswith('lrlex::parser::') or b.from_expansion:
+            continue
+        seeds = {}
+        for bb, t in b.calls(lambda t: cname(t) in ('find', 'rfind')):
+            if not (cpath(t) or '').startswith('core::str::') or len(t['args']) < 2:
+                continue
+            needle = t['args'][1]
+            if op_const(needle) is not None:
+                continue
+            nl = op_local(needle)
+            if nl is None or not b.lty(nl).startswith('&') or 'str' not in b.lty(nl):
+                continue        # a char, a closure or a char set: a search for a delimiter, not for a piece
+            r_, _p, _v = b.op_root(needle, stop_named=False)
+            from c03 import const_str_of
+            if const_str_of(b, needle) is not None:
+                continue
+            n += 1
+            seeds[t['dest']['l']] = (bb, t)
+        if not seeds:
+            continue
+        tainted = dict((l, l) for l in seeds)
+        changed = True
+        while changed:
+            changed = False
+            for bb in sorted(b.reachable()):
+                for st in b.blocks[bb]['stmts']:
+                    if st['k'] != 'assign' or st['lhs']['p']:
+                        continue
+                    srcs = [op_place(o)['l'] for o in rv_operands(st['rv']) if op_place(o) is not None]
+                    for k in ('ref',):
+                        if k in st['rv']:
+                            srcs.append(st['rv'][k]['l'])
+                    for x in srcs:
+                        if x in tainted and st['lhs']['l'] not in tainted:
+                            tainted[st['lhs']['l']] = tainted[x]
+                            changed = True
+                t = b.term(bb)
+                if t['k'] == 'call' and cname(t) in ('unwrap', 'expect', 'unwrap_or', 'map', 'unwrap_or_default') and t['args'] and op_local(t['args'][0]) in tainted and t['dest']['l'] not in tainted:
+                    tainted[t['dest']['l']] = tainted[op_local(t['args'][0])]
+                    changed = True
+        for bb, t in b.calls():
+            if (cpath(t) or '').endswith('span::Span::new'):
+                for a in t['args']:
+                    if op_local(a) in tainted:
+                        sb, st_ = seeds[tainted[op_local(a)]]
+                        bad.append((b, bb, 'a span bound is computed from `%s(<a piece of the text>)` (line %s): the first occurrence of the same characters, not the position of the piece' % (cname(st_), st_.get('line'))))
+    if bad:
+        b, bb, msg = bad[0]
+        res.bad(R, 'offset-by-search:%s' % strip_generics(b.path).split('::')[-1], loc_of(b, bb), msg, {'function': b.path})
+    else:
+        res.ok(R, 'no-offset-by-search', '', 'no span bound in the .l parser is obtained by searching for the text of a piece (%d searches with a non-constant needle examined)' % n)
+
+
 def run(facts, res):
+    r1111(facts, res)
     r114(facts, res)
     r1110(facts, res)
     r119(facts, res)
